@@ -65,6 +65,7 @@ namespace awkward {
     for (auto x : contents_) {
       x.get()->clear();
     }
+    current_ = -1;
   }
 
   const ContentPtr
